@@ -213,6 +213,10 @@ def run_interrupt(spec, res, pristine, budget):
         res['harness_errors'].append(dict(why='count path contains constructs that break the virtual-interruption argument: %s' % bad_syntax[:5]))
         return 'harness_error'
     U = Universe(spec)
+    from harness import lemmas
+    lf = lemmas.check_for([lemmas.effective_options(election_options(spec))])
+    if lf:
+        raise core.HarnessError('; '.join(lf))
     eng = core.Engine(timeout_ms=20000, max_branches=20000)
     seen_fail = {}
     from droop.election import Election
@@ -411,6 +415,10 @@ def run_havoc(spec, res, pristine, budget):
     wset, wmods = measure_write_set()
     res['extra'] = dict(write_set=wset, module_write_set=wmods, static_superset=static_write_set())
     U = Universe(spec)
+    from harness import lemmas
+    lf = lemmas.check_for([lemmas.effective_options(election_options(spec))])
+    if lf:
+        raise core.HarnessError('; '.join(lf))
     eng = core.Engine(timeout_ms=20000, max_branches=20000)
     from harness.diffrun import compare_records
     seen = {}
